@@ -548,11 +548,14 @@ is_default_constructible(CPPVisibility min_vis) const {
       return false;
     }
 
-    return true;
+    // NB: if it's defaulted, it may still be deleted.
+    if ((constructor->_storage_class & CPPInstance::SC_defaulted) == 0) {
+      return true;
+    }
   }
 
   // Does it have constructors at all?  If so, no implicit one is generated.
-  if (get_constructor() != nullptr) {
+  if (constructor == nullptr && get_constructor() != nullptr) {
     return false;
   }
 
@@ -610,11 +613,15 @@ is_copy_constructible(CPPVisibility min_vis) const {
       return false;
     }
 
-    return true;
+    // NB: if it's defaulted, it may still be deleted.
+    if ((constructor->_storage_class & CPPInstance::SC_defaulted) == 0) {
+      return true;
+    }
   }
 
-  if (get_move_constructor() != nullptr ||
-      get_move_assignment_operator() != nullptr) {
+  if (constructor == nullptr &&
+      (get_move_constructor() != nullptr ||
+       get_move_assignment_operator() != nullptr)) {
     // A user-declared move constructor or move assignment operator means that
     // the implicitly-declared copy constructor is deleted.
     return false;
